@@ -27,7 +27,7 @@ class C08(Prop):
 
     def gen(self, tier, rng):
         maxobs = 24 if tier == "quick" else 64
-        reps = 40 if tier == "quick" else 400
+        reps = 40 if tier == "quick" else 1200
         for rep in range(reps):
             et = "f64" if rep % 3 else "f32"
             k = rng.range(1, 8 if rng.chance(1, 4) else 4)
